@@ -13,7 +13,8 @@ DEMO_ENV = {("C19", 2, 2): {"DEMO_GOARCH": "386"}, ("C19", 2, 3): {"DEMO_FLAGS":
             ("C02", 4, 1): {"DEMO_GOARCH": "386"}, ("C04", 4, 3): {"DEMO_GOARCH": "386"}, ("C07", 4, 2): {"DEMO_GOARCH": "386"}, ("C08", 4, 2): {"DEMO_GOARCH": "386"}, ("C10", 4, 1): {"DEMO_GOARCH": "386"},
             ("C19", 4, 2): {"DEMO_FLAGS": "-race"}, ("C19", 4, 3): {"DEMO_GOARCH": "386"},
             ("C03", 5, 2): {"DEMO_GOARCH": "386"}, ("C13", 5, 3): {"DEMO_FLAGS": "-race"}, ("C19", 5, 1): {"DEMO_FLAGS": "-race"},
-            ("C14", 6, 1): {"DEMO_GOARCH": "386"}, ("C05", 6, 3): {"DEMO_GOARCH": "386"}, ("C19", 6, 1): {"DEMO_FLAGS": "-race"}}
+            ("C14", 6, 1): {"DEMO_GOARCH": "386"}, ("C05", 6, 3): {"DEMO_GOARCH": "386"}, ("C19", 6, 1): {"DEMO_FLAGS": "-race"},
+            ("C08", 7, 3): {"DEMO_GOARCH": "386"}}
 def one_prop(p):
     for k in ((1, 2) if ROUND == 1 else (1, 2, 3)):
         sub = "_mutants" if ROUND == 1 else "_mutants%d" % ROUND
